@@ -6,8 +6,16 @@ STATS = dict(schemas=0, json_accepted=0, cedar_rendered=0, cedar_accepted=0, bot
 
 
 def _case(world, c, i):
-    """CASE line of MC_SchemaSyntax -> harness case; the renderer style (quoting / layout) cycles with the case number"""
+    """CASE line of MC_SchemaSyntax -> harness case; the renderer style (bit 0 quote every name, bit 1 alternative layout,
+    bit 2 annotations on every declaration) cycles with the case number"""
     return dict(id=i, s=c["s"], coord=c["coord"], cedar=c["cedar"], ok=c["ok"], style=i % 8)
+
+
+def _case_of_event(ev):
+    """replay: the event echoes the case; ask the harness to print both renderings and the translated text as well"""
+    case = {k: ev[k] for k in ("id", "s", "coord", "cedar", "ok", "style") if k in ev}
+    case["verbose"] = True
+    return case
 
 
 def _loaded(ev, k):
@@ -54,7 +62,7 @@ C09 = dict(
     models=[dict(name="mc_schemasyn", module="MC_SchemaSyntax.tla",
                  cfg=dict(quick="MC_SchemaSyntax.cfg", thorough="MC_SchemaSyntax_thorough.cfg"), cases=_case)],
     nontrivial=_nontrivial, key=lambda ev: ev.get("s"),
-    mutate=_mutate, chunk=450, known_finding_id="C09-to_cedarschema-silently-lossy",
+    mutate=_mutate, chunk=450, case_of_event=_case_of_event, known_finding_id="C09-to_cedarschema-silently-lossy",
     extra_coverage=dict(acceptance=STATS),
     rule="G: MC_SchemaSyntax (TLC-enumerated, complete for its tables): 29 layouts of a subject name X in {A, String, Long, Bool, ipaddr} (declared in "
          "namespaces '', N, N::M as entity / enum entity / common type / both, incl. RFC-70 violations and reserved common-type names) x 3 reference "
@@ -63,14 +71,17 @@ C09 = dict(
          "namespace, common-type alias, context member, context as a reference, memberOfTypes, principalTypes, resourceTypes) x 2 scaffold variants "
          "(attribute names needing quotes, cross-namespace parents, tags, context as common type) x 10 action-parent / appliesTo variants; every schema "
          "also has an enum type with an id needing escapes, an action group per namespace and cross-namespace references in both directions. Each "
-         "schema is rendered to the JSON and (when expressible) the Cedar syntax by the harness, loaded, translated by the library "
+         "schema is rendered to the JSON and (when expressible) the Cedar syntax by the harness in one of 8 styles (names quoted or bare, two layouts, "
+         "with or without two annotations - one needing escapes, one without value - on every namespace, common type, entity type and action), loaded, translated by the library "
          "(to_cedarschema, to_json_value, schema_str_to_json_with_resolved_types), reloaded; every ValidatorSchema is projected (entity types, attribute "
          "and tag types with optionality, descendants, enum ids, actions, principals, resources, context, action descendants) and compared in TLC with "
-         "SchemaSyntax!ScResolve and with each other; rejections must coincide with ScProblems. non-trivial = at least one rendering loads; distinct by schema.",
+         "SchemaSyntax!ScResolve and with each other; the annotations of every fragment (read off its lossless JSON form) must be exactly the ones written; "
+         "rejections must coincide with ScProblems. non-trivial = at least one rendering loads; distinct by schema.",
     exhaustive=dict(quick=False, thorough=False),
     assumptions=["the harness renderers (harness/conform/src/schema_syntax.rs) spell the abstract schema faithfully; they never resolve a name",
                  "the projection walk over ValidatorSchema (fam_schemasyn.rs) is faithful; membership is compared as the descendant closure the library keeps",
-                 "annotations are not observable on ValidatorSchema and are not generated; action attributes (JSON only, deprecated) are not generated",
+                 "annotations are not observable on ValidatorSchema: they are compared on SchemaFragment::to_json_value; attribute-level annotations and "
+                 "action attributes (JSON only, deprecated) are not generated",
                  "a schema the specification says denotes nothing (ScProblems # {}) must be refused by both loaders - stricter than the property, "
                  "kept because it holds and anchors the acceptance rate"],
 )
